@@ -139,7 +139,7 @@ theorem C05_image_unlisted (d : DumpIn) (c : CrashInfo) (hc : d.crash = some c) 
 /-- **C05 (the writer refines the image model).** the builder operations of `exception_stream::write` produce exactly
     the exception stage of the image model, for every buffer state and content -/
 theorem C05_refine_exception (d : DumpIn) (a : Acc) (pre : Bytes) (hpre : pre.length = a.base)
-    (hb : a.pos + d.standalone.length + 168 < 2 ^ 32) :
+    (hb : a.pos + (if needsStandalone d then d.standalone.length else 0) + 168 < 2 ^ 32) :
     opException (a.bufOf pre) d.crash d.blamed (ctcOf d) d.standalone =
       some ((stException d a).bufOf pre, ⟨ST_EXCEPTION, 168, a.pos + (if needsStandalone d then d.standalone.length else 0)⟩) :=
   Refine_exception d a pre hpre hb
